@@ -83,11 +83,7 @@ pub fn instances() -> Vec<Instance> {
     // code fragments: bodies <= 3 items without the terminator inside
     for w in words_over(&["a", "}", "]", "[", "{", "\n"], 3) {
         if !w.contains("}]") {
-            let body_ends_brace = w.ends_with('}');
-            // "[{...}}]": the shortest text not containing "}]" ends at the first "}]"
-            if body_ends_brace {
-                continue;
-            }
+            // a body may end in '}' ("[{a}}]"): the fragment still ends at the first "}]"
             let reduced = matches!(w.as_str(), "" | "a" | "]" | "{[" | "a\n");
             push(format!("[{{{w}}}]"), RefKind::Code, reduced);
         }
